@@ -1,4 +1,412 @@
-import TbotVerif.Props.C04
+import TbotVerif.Props.C05Trace
+import TbotVerif.Props.ChanCase
+/-! C05 — "A registered death string aborts the read in which it completes, never earlier":
+    the monitor of `Spec.c05` against the model, for whole cases. -/
+
 namespace C05
-theorem placeholder : True := trivial
+open Chan Spec C03
+
+/-! ### the monitor's registrations against the model's -/
+
+/-- what the monitor knows about a registration: its string is admissible, and as long as it
+    has not fired its string does not occur in the data received since the registration -/
+def Inv (r : Reg) : Prop := PatOk r.pat ∧ (r.fired = false → r.pat.search r.since = none)
+
+theorem span_split (s : Bytes) (a e : Nat) (h1 : a ≤ e) (h2 : e ≤ s.length) :
+    s = s.take a ++ (s.drop a).take (e - a) ++ (s.drop a).drop (e - a)
+      ∧ ((s.drop a).drop (e - a)).length = s.length - e := by
+  refine ⟨?_, ?_⟩
+  · rw [List.append_assoc, List.take_append_drop, List.take_append_drop]
+  · simp only [List.length_drop]; omega
+
+/-- if `_check` reported nothing, no registration that has not fired yet sees its string in the
+    extended history (this is completeness, read backwards) -/
+theorem no_new_occ (regs : List Reg) (b : Bytes) (r : Reg) (hr : r ∈ regs) (hinv : Inv r)
+    (hf : r.fired = false) (hc : (chk (regs.map toDeath) b).1 = none) :
+    r.pat.search (r.since ++ b) = none := by
+  cases hs : r.pat.search (r.since ++ b) with
+  | none => rfl
+  | some v =>
+    exfalso
+    obtain ⟨a, e⟩ := v
+    obtain ⟨hae, he, hocc⟩ := search_occ r.pat hinv.1 _ a e hs
+    obtain ⟨hsplit, hylen⟩ := span_split (r.since ++ b) a e hae he
+    generalize hu : ((r.since ++ b).drop a).take (e - a) = u at hocc hsplit
+    generalize hy : ((r.since ++ b).drop a).drop (e - a) = y at hsplit hylen
+    by_cases hcase : y.length < b.length
+    · have := chk_complete regs b r hr hinv.1 _ u y hocc hsplit hcase
+      rw [hc] at this; simp at this
+    · have hA := append_cancel_right hsplit (by omega : b.length ≤ y.length)
+      have hsome := occ_search r.pat hinv.1 u hocc ((r.since ++ b).take a) (y.take (y.length - b.length))
+      rw [← hA, hinv.2 hf] at hsome
+      simp at hsome
+
+/-- a reported match is one the monitor accepts -/
+theorem justified_of (regs : List Reg) (b : Bytes) (e : Nat) (m : Bytes) (hinv : ∀ r ∈ regs, Inv r)
+    (h : (chk (regs.map toDeath) b).1 = some (e, m)) : justified (regs.map (ext b)) e m = true := by
+  obtain ⟨r, hr, hexc, hocc⟩ := chk_sound regs b e m h
+  obtain ⟨ho, x, y, heq⟩ := hocc (hinv r hr).1
+  unfold justified
+  rw [List.any_eq_true]
+  refine ⟨ext b r, List.mem_map_of_mem hr, ?_⟩
+  have h1 : (ext b r).occurs = true := by
+    unfold Reg.occurs
+    rw [ext_since, ext_pat, heq]
+    exact occ_search r.pat (hinv r hr).1 m ho x y
+  simp only [ext_exc, hexc, beq_self_eq_true, h1, Bool.true_and, ext_pat]
+  cases hp : r.pat with
+  | lit s =>
+    rw [hp] at ho
+    simp only [beq_iff_eq]
+    exact occ_lit s m ho
+  | re _ => rfl
+
+theorem c05Walk_cons (res : OpRes) (d : Bytes) (ds : List Bytes) (regs : List Reg) :
+    c05Walk res (d :: ds) regs =
+      if (regs.map (ext d)).any (fun r => !r.fired && r.occurs) then
+        (ds.isEmpty && (match deathOf res with
+          | some (e, m) => justified (regs.map (ext d)) e m
+          | none => false),
+         (regs.map (ext d)).map fun r => { r with fired := r.fired || r.occurs })
+      else if ds.isEmpty then
+        ((match deathOf res with
+          | some (e, m) => justified (regs.map (ext d)) e m
+          | none => true), regs.map (ext d))
+      else c05Walk res ds (regs.map (ext d)) := rfl
+
+/-- **the monitor accepts every trace of the model** and stays in step with the rings -/
+theorem walk (res : OpRes) : ∀ (bs : List Bytes) (regs : List Reg) (ds' : List Death) (f : Option (Nat × Bytes)),
+    (∀ r ∈ regs, Inv r) → DTrace (regs.map toDeath) bs ds' f → deathOf res = f →
+    ∃ regs', c05Walk res bs regs = (true, regs') ∧ ds' = regs'.map toDeath ∧ (∀ r ∈ regs', Inv r) := by
+  intro bs
+  induction bs with
+  | nil =>
+    intro regs ds' f hinv ht hd
+    cases ht
+    exact ⟨regs, by simp [c05Walk, hd], rfl, hinv⟩
+  | cons d ds ih =>
+    intro regs ds' f hinv ht hd
+    cases ht with
+    | ok _ _ _ _ _ hc hrest =>
+      rw [chk_invariant] at hrest
+      have hnew : ∀ r ∈ regs, r.fired = false → r.pat.search (r.since ++ d) = none :=
+        fun r hr hf => no_new_occ regs d r hr (hinv r hr) hf hc
+      have hdue : (regs.map (ext d)).any (fun r => !r.fired && r.occurs) = false := by
+        rw [List.any_eq_false]
+        intro r1 hr1
+        obtain ⟨r, hr, rfl⟩ := List.mem_map.mp hr1
+        cases hf : r.fired with
+        | true => simp [hf]
+        | false => simp [Reg.occurs, hnew r hr hf, hf]
+      have hinv1 : ∀ r1 ∈ regs.map (ext d), Inv r1 := by
+        intro r1 hr1
+        obtain ⟨r, hr, rfl⟩ := List.mem_map.mp hr1
+        exact ⟨(hinv r hr).1, fun hf => hnew r hr hf⟩
+      rw [c05Walk_cons, hdue]
+      simp only [Bool.false_eq_true, if_false]
+      cases ds with
+      | nil =>
+        cases hrest
+        rw [hd]
+        exact ⟨_, rfl, rfl, hinv1⟩
+      | cons d2 ds2 =>
+        simp only [List.isEmpty_cons, Bool.false_eq_true, if_false]
+        exact ih _ _ _ hinv1 hrest hd
+    | fire _ _ x hc =>
+      obtain ⟨e, m⟩ := x
+      have hj := justified_of regs d e m hinv hc
+      rw [c05Walk_cons, hd, chk_invariant]
+      simp only [List.isEmpty_nil, Bool.true_and, if_true, hj]
+      cases hdue : (regs.map (ext d)).any (fun r => !r.fired && r.occurs) with
+      | true =>
+        simp only [if_true]
+        refine ⟨_, rfl, ?_, ?_⟩
+        · simp only [List.map_map]
+          exact List.map_congr_left (fun r _ => rfl)
+        · intro r2 hr2
+          obtain ⟨r1, hr1, rfl⟩ := List.mem_map.mp hr2
+          obtain ⟨r, hr, rfl⟩ := List.mem_map.mp hr1
+          refine ⟨(hinv r hr).1, fun hf => ?_⟩
+          simp only [Bool.or_eq_false_iff] at hf
+          have := hf.2
+          unfold Reg.occurs at this
+          cases hs : (ext d r).pat.search (ext d r).since with
+          | none => rfl
+          | some v => rw [hs] at this; simp at this
+      | false =>
+        simp only [Bool.false_eq_true, if_false]
+        refine ⟨_, rfl, rfl, ?_⟩
+        intro r1 hr1
+        have hnd := (List.any_eq_false.mp hdue) r1 hr1
+        obtain ⟨r, hr, rfl⟩ := List.mem_map.mp hr1
+        refine ⟨(hinv r hr).1, fun hf => ?_⟩
+        simp only [hf, Bool.not_false, Bool.true_and] at hnd
+        unfold Reg.occurs at hnd
+        cases hs : (ext d r).pat.search (ext d r).since with
+        | none => rfl
+        | some v => rw [hs] at hnd; simp at hnd
+
+/-! ### operations -/
+
+/-- the monitor and the model are in step -/
+structure Rel (m : DeathMon) (r : RunSt) : Prop where
+  deaths : r.st.deaths = m.regs.map toDeath
+  frames : m.frames = r.deaths
+  next : m.next = r.st.nextDeath
+  inv : ∀ reg ∈ m.regs, Inv reg
+
+/-- the death strings an operation registers are admissible -/
+def opDeathOk : Op → Prop
+  | .deathEnter p _ => PatOk p
+  | .deathAdd p _ => PatOk p
+  | _ => True
+
+theorem deathOf_err (e : Exc) : deathOf (.err e) = excDeath e := by cases e <;> rfl
+
+theorem deathOf_chunks (cs : List Bytes) (e : Option Exc) : deathOf (.chunks cs e) = e.bind excDeath := by
+  cases e with
+  | none => rfl
+  | some e => cases e <;> rfl
+
+/-- the run state an operation starts from inside `obsOp`: logs cut -/
+def cutR (r : RunSt) : RunSt := { r with st := cut r.st }
+
+/-- an admissible string does not occur in the empty history -/
+theorem search_nil (p : Pat) (hp : PatOk p) : p.search [] = none := by
+  cases hs : p.search [] with
+  | none => rfl
+  | some v =>
+    obtain ⟨a, e⟩ := v
+    obtain ⟨_, he, hocc⟩ := search_occ p hp [] a e hs
+    exact absurd (by simp) (occ_ne p hp _ hocc)
+
+/-- a read-type operation: the monitor walks the deliveries -/
+theorem step_read (m : DeathMon) (r : RunSt) (op : Op) (hrel : Rel m r)
+    (hnd : ∀ o, c05 m op o = ((c05Walk o.res (delivered o) m.regs).1,
+      { m with regs := (c05Walk o.res (delivered o) m.regs).2 }))
+    (hdt : DT (cut r.st) (runOp op (cutR r)).2.st (deathOf (runOp op (cutR r)).1))
+    (hfr : (runOp op (cutR r)).2.deaths = r.deaths) :
+    (c05 m op (obsOp op r).1).1 = true ∧ Rel (c05 m op (obsOp op r).1).2 (obsOp op r).2 := by
+  obtain ⟨recs, hr, hn, ht⟩ := hdt
+  have hreads : (obsOp op r).1.reads = recs := by
+    show (runOp op (cutR r)).2.st.reads = recs
+    rw [hr]; rfl
+  have hdel : delivered (obsOp op r).1 = dataOf recs := by
+    unfold delivered; rw [hreads]; rfl
+  have hd0 : (cut r.st).deaths = m.regs.map toDeath := hrel.deaths
+  rw [hd0] at ht
+  obtain ⟨regs', hw, hds, hinv'⟩ := walk (obsOp op r).1.res (dataOf recs) m.regs _ _ hrel.inv ht rfl
+  rw [hnd, hdel, hw]
+  exact ⟨rfl, ⟨hds, hrel.frames.trans hfr.symm, hrel.next.trans hn.symm, hinv'⟩⟩
+
+/-- an operation that neither reads nor touches the registrations -/
+theorem step_quiet (m : DeathMon) (r : RunSt) (op : Op) (hrel : Rel m r)
+    (hnd : ∀ o, c05 m op o = ((deathOf o.res).isNone, m))
+    (hq : Quiet (cut r.st) (runOp op (cutR r)).2.st)
+    (hres : deathOf (runOp op (cutR r)).1 = none)
+    (hfr : (runOp op (cutR r)).2.deaths = r.deaths) :
+    (c05 m op (obsOp op r).1).1 = true ∧ Rel (c05 m op (obsOp op r).1).2 (obsOp op r).2 := by
+  rw [hnd]
+  have hres' : deathOf (obsOp op r).1.res = none := hres
+  rw [hres']
+  refine ⟨rfl, ⟨?_, hrel.frames.trans hfr.symm, hrel.next.trans hq.2.2.symm, hrel.inv⟩⟩
+  show (runOp op (cutR r)).2.st.deaths = _
+  rw [hq.2.1]; exact hrel.deaths
+
+theorem ofUnit_death (x : Res Unit) : deathOf (ofUnit x).1 = resDeath x.1 ∧ (ofUnit x).2 = x.2 := by
+  obtain ⟨res, s⟩ := x
+  cases res with
+  | ok u => exact ⟨rfl, rfl⟩
+  | error e => exact ⟨deathOf_err e, rfl⟩
+
+/-- **one operation**: the monitor accepts the observation of the model and stays in step -/
+theorem c05_step (m : DeathMon) (r : RunSt) (op : Op) (hrel : Rel m r) (hop : opDeathOk op) :
+    (c05 m op (obsOp op r).1).1 = true ∧ Rel (c05 m op (obsOp op r).1).2 (obsOp op r).2 := by
+  cases op with
+  | setPrompt p => exact step_quiet m r _ hrel (fun _ => rfl) ⟨rfl, rfl, rfl⟩ rfl rfl
+  | promptEnter p => exact step_quiet m r _ hrel (fun _ => rfl) ⟨rfl, rfl, rfl⟩ rfl rfl
+  | promptExit =>
+    refine step_quiet m r _ hrel (fun _ => rfl) ?_ ?_ ?_
+    all_goals
+      simp only [runOp, cutR]
+      cases r.prompts <;> first | exact ⟨rfl, rfl, rfl⟩ | rfl
+  | setBlacklist b => exact step_quiet m r _ hrel (fun _ => rfl) ⟨rfl, rfl, rfl⟩ rfl rfl
+  | setSlow d c => exact step_quiet m r _ hrel (fun _ => rfl) ⟨rfl, rfl, rfl⟩ rfl rfl
+  | streamEnter id sp => exact step_quiet m r _ hrel (fun _ => rfl) ⟨rfl, rfl, rfl⟩ rfl rfl
+  | streamExit =>
+    refine step_quiet m r _ hrel (fun _ => rfl) ?_ ?_ ?_
+    all_goals
+      simp only [runOp, cutR]
+      cases r.streams <;> first | exact ⟨rfl, rfl, rfl⟩ | rfl
+  | sleep n => exact step_quiet m r _ hrel (fun _ => rfl) ⟨rfl, rfl, rfl⟩ rfl rfl
+  | write b ign =>
+    have h := write_quiet b ign (cut r.st)
+    have hu := ofUnit_death (write b ign (cut r.st))
+    refine step_quiet m r _ hrel (fun _ => rfl) ?_ ?_ ?_
+    · simp only [runOp, cutR, hu.2]; exact h.1
+    · simp only [runOp, cutR, hu.1]; exact h.2
+    · rfl
+  | sendcontrol n =>
+    have h := sendcontrol_quiet n (cut r.st)
+    have hu := ofUnit_death (sendcontrol n (cut r.st))
+    refine step_quiet m r _ hrel (fun _ => rfl) ?_ ?_ ?_
+    · simp only [runOp, cutR, hu.2]; exact h.1
+    · simp only [runOp, cutR, hu.1]; exact h.2
+    · rfl
+  | send b rb t ign =>
+    have hu := ofUnit_death (send b rb t ign (cut r.st))
+    cases rb with
+    | false =>
+      have h := send_quiet b t ign (cut r.st)
+      refine step_quiet m r _ hrel (fun _ => rfl) ?_ ?_ ?_
+      · simp only [runOp, cutR, hu.2]; exact h.1
+      · simp only [runOp, cutR, hu.1]; exact h.2
+      · rfl
+    | true =>
+      have h := send_dt b true t ign (cut r.st)
+      refine step_read m r _ hrel (fun _ => rfl) ?_ rfl
+      simp only [runOp, cutR, hu.1, hu.2]; exact h
+  | sendline b rb t =>
+    have hu := ofUnit_death (sendline b rb t (cut r.st))
+    cases rb with
+    | false =>
+      have h := send_quiet (b ++ [13]) t false (cut r.st)
+      refine step_quiet m r _ hrel (fun _ => rfl) ?_ ?_ ?_
+      · simp only [runOp, cutR, hu.2]; exact h.1
+      · simp only [runOp, cutR, hu.1]; exact h.2
+      · rfl
+    | true =>
+      have h := send_dt (b ++ [13]) true t false (cut r.st)
+      refine step_read m r _ hrel (fun _ => rfl) ?_ rfl
+      simp only [runOp, cutR, hu.1, hu.2]; exact h
+  | read n t =>
+    have h := read_dt n t (cut r.st)
+    refine step_read m r _ hrel (fun _ => rfl) ?_ ?_
+    all_goals
+      simp only [runOp, cutR]
+      generalize Chan.read n t (cut r.st) = out at h
+      obtain ⟨res, s'⟩ := out
+      cases res with
+      | ok b => first | exact h | rfl
+      | error e => first | (rw [deathOf_err]; exact h) | rfl
+  | readIter mx t k =>
+    have h := riTake_dt (fuelFor (cut r.st)) k (riStart mx t (cut r.st)) (cut r.st) []
+    refine step_read m r _ hrel (fun _ => rfl) ?_ rfl
+    simp only [runOp, cutR, deathOf_chunks]
+    exact h
+  | readline e t =>
+    have h := readlineLoop_dt (fuelFor (cut r.st)) e [] (cut r.st).now t (cut r.st)
+    refine step_read m r _ hrel (fun _ => rfl) ?_ ?_
+    all_goals
+      simp only [runOp, cutR, readline]
+      generalize readlineLoop (fuelFor (cut r.st)) e [] (cut r.st).now t (cut r.st) = out at h
+      obtain ⟨res, s'⟩ := out
+      cases res with
+      | ok b => first | exact h | rfl
+      | error e => first | (rw [deathOf_err]; exact h) | rfl
+  | expect ps t =>
+    have h := expectLoop_dt (fuelFor (cut r.st)) ps [] (riStart none t (cut r.st)) (cut r.st)
+    refine step_read m r _ hrel (fun _ => rfl) ?_ ?_
+    all_goals
+      simp only [runOp, cutR, expect]
+      generalize expectLoop (fuelFor (cut r.st)) ps [] (riStart none t (cut r.st)) (cut r.st) = out at h
+      obtain ⟨res, s'⟩ := out
+      cases res with
+      | ok b => first | exact h | rfl
+      | error e => first | (rw [deathOf_err]; exact h) | rfl
+  | rup p t =>
+    have h := readUntilPrompt_dt p t (cut r.st)
+    refine step_read m r _ hrel (fun _ => rfl) ?_ ?_
+    all_goals
+      simp only [runOp, cutR]
+      generalize readUntilPrompt p t (cut r.st) = out at h
+      obtain ⟨res, s'⟩ := out
+      cases res with
+      | ok b => first | exact h | rfl
+      | error e => first | (rw [deathOf_err]; exact h) | rfl
+  | rut t =>
+    have h := readUntilTimeout_dt t (cut r.st)
+    refine step_read m r _ hrel (fun _ => rfl) ?_ ?_
+    all_goals
+      simp only [runOp, cutR]
+      generalize readUntilTimeout t (cut r.st) = out at h
+      obtain ⟨res, s'⟩ := out
+      cases res with
+      | ok b => first | exact h | rfl
+      | error e => first | (rw [deathOf_err]; exact h) | rfl
+  | deathEnter p e =>
+    refine ⟨rfl, ⟨?_, ?_, ?_, ?_⟩⟩
+    · show _ :: (cut r.st).deaths = _
+      simp only [c05, List.map_cons, toDeath, lastN_nil, hrel.next]
+      congr 1
+      exact hrel.deaths
+    · show _ :: m.frames = _ :: r.deaths
+      rw [hrel.frames, hrel.next]
+    · show m.next + 1 = r.st.nextDeath + 1
+      rw [hrel.next]
+    · intro reg hreg
+      rcases List.mem_cons.mp hreg with rfl | hreg
+      · exact ⟨hop, fun _ => search_nil p hop⟩
+      · exact hrel.inv reg hreg
+  | deathAdd p e =>
+    refine ⟨rfl, ⟨?_, hrel.frames, ?_, ?_⟩⟩
+    · show _ :: (cut r.st).deaths = _
+      simp only [c05, List.map_cons, toDeath, lastN_nil, hrel.next]
+      congr 1
+      exact hrel.deaths
+    · show m.next + 1 = r.st.nextDeath + 1
+      rw [hrel.next]
+    · intro reg hreg
+      rcases List.mem_cons.mp hreg with rfl | hreg
+      · exact ⟨hop, fun _ => search_nil p hop⟩
+      · exact hrel.inv reg hreg
+  | deathExit =>
+    have hfr := hrel.frames
+    cases hd : r.deaths with
+    | nil =>
+      rw [hd] at hfr
+      have hobs : (obsOp .deathExit r).2 = { cutR r with deaths := [] } := by
+        simp only [obsOp, runOp, hd]; rfl
+      have hc : ∀ o, c05 m .deathExit o = (true, m) := by
+        intro o; simp only [c05, hfr]
+      rw [hc, hobs]
+      exact ⟨rfl, ⟨hrel.deaths, hfr, hrel.next, hrel.inv⟩⟩
+    | cons id rest =>
+      rw [hd] at hfr
+      have hobs : (obsOp .deathExit r).2 = { r with st := Chan.deathExit id (cut r.st), deaths := rest } := by
+        simp only [obsOp, runOp, hd]; rfl
+      have hc : ∀ o, c05 m .deathExit o = (true, { m with regs := m.regs.filter (·.id != id), frames := rest }) := by
+        intro o; simp only [c05, hfr]
+      rw [hc, hobs]
+      refine ⟨rfl, ⟨?_, rfl, hrel.next, ?_⟩⟩
+      · show (cut r.st).deaths.filter (·.id != id) = _
+        have : (cut r.st).deaths = m.regs.map toDeath := hrel.deaths
+        rw [this, List.filter_map]
+        rfl
+      · intro reg hreg
+        exact hrel.inv reg (List.mem_filter.mp hreg).1
+
+/-! ### whole cases -/
+
+theorem run_spec : ∀ (ops : List Op) (m : DeathMon) (r : RunSt), Rel m r → (∀ op ∈ ops, opDeathOk op) →
+    foldOpsM c05 m ops (runOps ops r).1 = true := by
+  intro ops
+  induction ops with
+  | nil => intro m r _ _; rfl
+  | cons op ops ih =>
+    intro m r hrel hops
+    obtain ⟨h1, h2⟩ := c05_step m r op hrel (hops op (List.mem_cons_self ..))
+    rw [(ChanCase.runOps_cons op ops r).1]
+    simp only [foldOpsM, h1, Bool.true_and]
+    exact ih _ _ h2 (fun o ho => hops o (List.mem_cons_of_mem _ ho))
+
+theorem rel_init (c : Case) : Rel {} (initSt c) := ⟨rfl, rfl, rfl, fun _ h => by simp at h⟩
+
+/-- **C05 (whole case)** for admissible death strings (`PatOk`): non-empty literals, and
+    anchor-free regexes that do not match the empty word. -/
+theorem case_spec_ok (c : Case) (h : ∀ op ∈ c.ops, opDeathOk op) : Spec.C05 c (Chan.run c) = true := by
+  unfold Spec.C05 Chan.run
+  simp only
+  exact run_spec c.ops {} (initSt c) (rel_init c) h
+
 end C05
